@@ -213,8 +213,18 @@ func (g *Generator) generateOneofMarshalVariants(gf *protogen.GeneratedFile, inf
 
 		if info.Flatten && variant.IsMessage {
 			g.generateFlattenedMarshal(gf, variant)
+		} else if variant.IsMessage {
+			// Non-flattened: protojson already put the variant under its field name. The decoder hands
+			// that value to the variant's own UnmarshalJSON when it has one, so the encoder uses the
+			// variant's own MarshalJSON in the same case (annotation composability in both directions).
+			gf.P("if inner := x.Get", variant.Field.GoName, "(); inner != nil {")
+			gf.P("if jm, ok := any(inner).(json.Marshaler); ok {")
+			gf.P("if variantData, varErr := jm.MarshalJSON(); varErr == nil {")
+			gf.P(`raw["`, variant.Field.Desc.JSONName(), `"] = variantData`)
+			gf.P("}")
+			gf.P("}")
+			gf.P("}")
 		}
-		// Non-flattened: protojson already puts variant under its field name, just add discriminator
 	}
 
 	gf.P("default:")
@@ -234,7 +244,13 @@ func (g *Generator) generateFlattenedMarshal(
 
 	gf.P("// Flatten: marshal variant via json.Marshal to invoke child MarshalJSON")
 	gf.P("if inner := x.Get", fieldGoName, "(); inner != nil {")
-	gf.P("variantData, varErr := json.Marshal(inner)")
+	gf.P("var variantData []byte")
+	gf.P("var varErr error")
+	gf.P("if jm, ok := any(inner).(json.Marshaler); ok {")
+	gf.P("variantData, varErr = jm.MarshalJSON()")
+	gf.P("} else {")
+	gf.P("variantData, varErr = protojson.Marshal(inner)")
+	gf.P("}")
 	gf.P("if varErr == nil {")
 	gf.P("var variantMap map[string]json.RawMessage")
 	gf.P("if json.Unmarshal(variantData, &variantMap) == nil {")
@@ -357,14 +373,12 @@ func (g *Generator) generateFlattenedUnmarshal(
 
 	gf.P("variantData, _ := json.Marshal(variantMap)")
 	gf.P("variant := &", msgType, "{}")
-	gf.P("if err := json.Unmarshal(variantData, variant); err != nil {")
-	gf.P(`return fmt.Errorf("failed to unmarshal variant %s: %w", "`, fieldGoName, `", err)`)
-	gf.P("}")
+	g.generateVariantDecode(gf, "variantData", fieldGoName)
 	gf.P("x.", info.Oneof.GoName, " = &", wrapperType, "{", fieldGoName, ": variant}")
 
 	// Add the variant back to raw under its original field name for protojson
-	// (protojson expects the oneof wrapper format)
-	gf.P(`raw["`, fieldJSONName, `"], _ = json.Marshal(variant)`)
+	// (protojson expects the oneof wrapper format, in proto3 JSON)
+	gf.P(`raw["`, fieldJSONName, `"], _ = protojson.Marshal(variant)`)
 }
 
 // generateNestedUnmarshal generates non-flattened unmarshal code for a message variant.
@@ -383,9 +397,25 @@ func (g *Generator) generateNestedUnmarshal(
 	gf.P("// Non-flattened unmarshal: use json.Unmarshal for child UnmarshalJSON support")
 	gf.P(`if variantRaw, exists := raw["`, fieldJSONName, `"]; exists {`)
 	gf.P("variant := &", msgType, "{}")
-	gf.P("if err := json.Unmarshal(variantRaw, variant); err != nil {")
-	gf.P(`return fmt.Errorf("failed to unmarshal variant %s: %w", "`, fieldGoName, `", err)`)
-	gf.P("}")
+	g.generateVariantDecode(gf, "variantRaw", fieldGoName)
 	gf.P("x.", info.Oneof.GoName, " = &", wrapperType, "{", fieldGoName, ": variant}")
+	// protojson reads the whole object again below: hand it the variant in proto3 JSON
+	gf.P(`raw["`, fieldJSONName, `"], _ = protojson.Marshal(variant)`)
+	gf.P("}")
+}
+
+// generateVariantDecode decodes the JSON in dataVar into the local variable "variant": through the
+// variant's own UnmarshalJSON if it has one (annotation composability), as proto3 JSON otherwise.
+func (g *Generator) generateVariantDecode(gf *protogen.GeneratedFile, dataVar, fieldGoName string) {
+	gf.P("{")
+	gf.P("var varErr error")
+	gf.P("if ju, ok := any(variant).(json.Unmarshaler); ok {")
+	gf.P("varErr = ju.UnmarshalJSON(", dataVar, ")")
+	gf.P("} else {")
+	gf.P("varErr = protojson.Unmarshal(", dataVar, ", variant)")
+	gf.P("}")
+	gf.P("if varErr != nil {")
+	gf.P(`return fmt.Errorf("failed to unmarshal variant %s: %w", "`, fieldGoName, `", varErr)`)
+	gf.P("}")
 	gf.P("}")
 }
